@@ -921,6 +921,25 @@ def r6e_no_vacuous_periodic(ctx, F):
     ctx.floor("constraints-with-periodic-masks", n, 20)
 
 
+def r6f_no_dead_constraint(ctx, F):
+    """every stack / range-checker transition constraint is non-zero for at least one operation (a constraint multiplied by two
+    mutually exclusive operation flags would be enforced for no operation)"""
+    V = AirView(F)
+    R = V.R
+    n = 0
+    for part in ("stack", "range_checker"):
+        lo, hi = R["ranges"][part]
+        for ci in range(lo, hi):
+            n += 1
+            ctx.inst(key="constraint#%d" % ci, nontrivial=True)
+            alive = [name for name, polys in V.by_name.items() if isinstance(polys[ci], (Poly, Sup)) and (polys[ci].vars() if isinstance(polys[ci], Sup) else not polys[ci].is_zero())]
+            ctx.oblig(bool(alive))
+            if not alive:
+                ctx.violation("dead-constraint|%s|#%d" % (part, ci - lo), "air/src/constraints/%s" % ("stack" if part == "stack" else "range.rs"),
+                              "%s transition constraint #%d (slot %d of its group) is identically zero for every one of the %d operations: it is enforced nowhere" % (part, ci, ci - lo, len(V.by_name)))
+    ctx.floor("stack-and-range-constraints", n, 100)
+
+
 def run(ctx, F):
     ctx.trusted += ["rustc MIR (nightly) via mirfacts", "mirsym abstract interpreter (exact polynomials over GF(2^64-2^32+1))",
                     "docs/src/design as the specification oracle (parsed at run time)", "frozen tables CONDITIONAL/EXEMPT in vlib/rules_c04.py"]
@@ -940,4 +959,5 @@ def run(ctx, F):
     ctx.run_rule("C04-R6c", "memory chiplet: every documented constraint of design/chiplets/memory.md (AIR constraints section) is present among the chiplet's constraints", r6c_memory_docs, F)
     ctx.run_rule("C04-R6d", "hasher chiplet: the documented selector, node-index and state-copy constraints (design/chiplets/hasher.md, flags expanded from the instruction-flag table) are present among the chiplet's constraints", r6d_hasher_docs, F)
     ctx.run_rule("C04-R6e", "no transition constraint is gated by periodic masks that are never 1 on the same row (vanishing at all 8 positions of its cycle)", r6e_no_vacuous_periodic, F)
+    ctx.run_rule("C04-R6f", "every stack / range-checker transition constraint is non-zero for at least one operation", r6f_no_dead_constraint, F)
     ctx.run_rule("C04-R6", "chiplet constraint slots gated by their selectors; listed next-row columns occur; selector constraints exact", r6_chiplets, F)
